@@ -96,7 +96,11 @@ pub fn model_path() -> String {
 
 impl ModelProc {
     pub fn spawn() -> ModelProc {
-        let mut child = Command::new(model_path())
+        // the extracted code recurses over byte lists (not tail-recursively): lift the stack limit
+        let mut child = Command::new("sh")
+            .arg("-c")
+            .arg("ulimit -s unlimited 2>/dev/null || ulimit -s 1000000 2>/dev/null; exec \"$0\"")
+            .arg(model_path())
             .stdin(Stdio::piped())
             .stdout(Stdio::piped())
             .spawn()
